@@ -375,7 +375,7 @@ def run_group(task):
             ok = check_members(m, st, want, 'members first', order=rnd)
             ok = check_range(m, st, r0, c0, st, want, 'target range, after the members') and ok
         done.append((st, want))
-        if out['sample'] is None and st == (3, 3):
+        if out['sample'] is None and st == (3, 3) and task['shapes'][0] == [2, 2]:
             out['sample'] = dict(label, target=[3, 3], expected=want)
     out['informative'] = len(distinct_vals)
     # ranges made of member cells, read through a fresh model in which the
@@ -670,7 +670,7 @@ def run(tier, seed):
     procs = max(2, min(8 if tier == 'quick' else 12, (os.cpu_count() or 2)))
     agg = dict(evals=0, skipped_cells=0, skipped_targets=0, workbooks=0,
                informative=0, file_workbooks=sum(1 for t in tasks if t['file']))
-    per_template = {}
+    per_template, found = {}, {}
     ctx = multiprocessing.get_context('fork')
     with ctx.Pool(procs) as pool:
         for task, out in zip(tasks, pool.imap(run_group, tasks, chunksize=4)):
@@ -688,7 +688,14 @@ def run(tier, seed):
             if out['sample'] and task['form'] == 'fn':
                 v.sample(out['sample'], limit=9)
             for desc, case in out['violations']:
-                v.violation(desc, case)
+                kind = case.get('order') or 'compile'
+                found.setdefault(kind.split(',')[0], []).append((desc, case))
+    # report round-robin over the kinds of access, so that the replay files
+    # (the first twenty) show every kind of discrepancy
+    while any(found.values()):
+        for kind in sorted(found):
+            if found[kind]:
+                v.violation(*found[kind].pop(0))
     v.traces = nvec
     v.extra.update(
         bounds=dict(max_extent=MAX, max_args=3, shape_triples=MAX ** 6,
